@@ -3,81 +3,118 @@ import MjProof.Model.CType
 Table types for C49: the shipped introspection metadata (`enums.py`, `structs.py`, `functions.py`)
 and the same facts extracted from the C headers.  Core Lean only.
 
-Python side: ASTs as they are in the shipped tables.
-Header side: every type is an index into a table of (type string as the compiler / the header text
-spells it, AST); `resolve*` looks the ASTs up.  Every text is a `Str` written as `dS <numeral>` (see Model/CType.lean).  `Props/C49Gen.lean` proves that each string of that
-table parses (with the model of `parse_type`) to the AST next to it, and that the resolved header
-tables equal the Python tables.
+Every text in a generated table (names of enums, constants, structs, members, functions,
+parameters, value types, and the type spellings of the headers) is a *numeral*: the bytes of the
+text, big-endian, after a leading 1 (`0x16d6a` = "mj"); `MjProof.CType.dS` decodes it.  The kernel
+compares numerals natively, so that the table equalities are decided quickly, whereas string or
+character comparisons are orders of magnitude slower there.  The generated files carry the plain
+text of every entry in comments.
+
+Python side: ASTs as they are in the shipped tables (`CTypeN` = `CType` with coded names).
+Header side: every type is an index into a table of (type spelling as the compiler prints it / as
+the header text spells an array parameter, AST computed by the translator); `resolve*` looks the
+ASTs up.  `Props/C49Gen.lean` proves that each spelling of that table parses (with the model of
+`parse_type`) to the AST next to it, and that the resolved header tables equal the Python tables.
 
 Struct members are flattened in declaration order: `field`, `openStruct n` … `close` for a member
-`n` of anonymous struct type, `openUnion ""` … `close` for an anonymous union.
-`extent` is `StructFieldDecl.array_extent` (`i:<int>` / `s:<str>` entries), `none` for `None`.
+`n` of anonymous struct type, `openUnion 1` … `close` for an anonymous union (1 = empty text).
+`extent` is `StructFieldDecl.array_extent` (entries `i:<int>` / `s:<str>`), `none` for `None`.
 Documentation strings are not part of the tables.
 -/
 namespace MjProof.Introspect
 open MjProof.CType
 
+/-- `CType` with the value-type name given as a text numeral -/
+inductive CTypeN where
+  | value (name : Nat) (isConst isVolatile : Bool)
+  | pointer (inner : CTypeN) (nullable isConst isVolatile isRestrict : Bool)
+  | array (inner : CTypeN) (extents : List Int)
+  deriving DecidableEq, Repr
+
+def CTypeN.decode : CTypeN → CType
+  | .value n c v => .value (dS n) c v
+  | .pointer i n c v r => .pointer i.decode n c v r
+  | .array i e => .array i.decode e
+
+/-- the value-type name at the bottom of the type -/
+def CTypeN.leaf : CTypeN → Nat
+  | .value n _ _ => n
+  | .pointer i _ _ _ _ => i.leaf
+  | .array i _ => i.leaf
+
+def CTypeN.isArray : CTypeN → Bool
+  | .array _ _ => true
+  | _ => false
+
+/-- `WF` without the check of the value-type name: no `nullable` pointer, no empty extent list,
+    no array directly inside an array -/
+def CTypeN.shapeOk : CTypeN → Bool
+  | .value _ _ _ => true
+  | .pointer i n _ _ _ => !n && i.shapeOk
+  | .array i e => !e.isEmpty && !i.isArray && i.shapeOk
+
 structure EnumT where
-  name : Str
-  declname : Str
-  values : List (Str × Int)
+  name : Nat
+  declname : Nat
+  values : List (Nat × Int)
   deriving DecidableEq, Repr
 
 inductive Item where
-  | field (name : Str) (type : CType) (extent : Option (List Str))
-  | openStruct (name : Str)
-  | openUnion (name : Str)
+  | field (name : Nat) (type : CTypeN) (extent : Option (List Nat))
+  | openStruct (name : Nat)
+  | openUnion (name : Nat)
   | close
   deriving DecidableEq, Repr
 
 structure StructT where
-  name : Str
-  declname : Str
+  name : Nat
+  declname : Nat
   items : List Item
   deriving DecidableEq, Repr
 
 structure ParamT where
-  name : Str
-  type : CType
+  name : Nat
+  type : CTypeN
   nullable : Bool
   deriving DecidableEq, Repr
 
 structure FuncT where
-  name : Str
-  ret : CType
+  name : Nat
+  ret : CTypeN
   params : List ParamT
   deriving DecidableEq, Repr
 
 /-! header side -/
 
 inductive ItemH where
-  | field (name : Str) (ty : Nat) (extent : Option (List Str))
-  | openStruct (name : Str)
-  | openUnion (name : Str)
+  | field (name : Nat) (ty : Nat) (extent : Option (List Nat))
+  | openStruct (name : Nat)
+  | openUnion (name : Nat)
   | close
-  deriving DecidableEq, Repr
+  deriving Repr
 
 structure StructH where
-  name : Str
-  declname : Str
+  name : Nat
+  declname : Nat
   items : List ItemH
   deriving Repr
 
 structure ParamH where
-  name : Str
+  name : Nat
   ty : Nat
   nullable : Bool
   deriving Repr
 
 structure FuncH where
-  name : Str
+  name : Nat
   ret : Nat
   params : List ParamH
   deriving Repr
 
-abbrev TypeTable := List (Str × CType)
+/-- (type spelling, AST) -/
+abbrev TypeTable := List (Nat × CTypeN)
 
-def lookup (tbl : TypeTable) (i : Nat) : Option CType := (tbl[i]?).map (·.2)
+def lookup (tbl : TypeTable) (i : Nat) : Option CTypeN := (tbl[i]?).map (·.2)
 
 def resolveItem (tbl : TypeTable) : ItemH → Option Item
   | .field n i e => (lookup tbl i).map (fun t => .field n t e)
@@ -96,16 +133,26 @@ def resolveFunc (tbl : TypeTable) (f : FuncH) : Option FuncT :=
   | some r, some ps => some { name := f.name, ret := r, params := ps }
   | _, _ => none
 
-/-- every string of the table parses to the AST next to it -/
-def tableParses (tbl : TypeTable) : Bool := tbl.all (fun p => parseType p.1 == some p.2)
+/-- every spelling of the table parses to the AST next to it -/
+def tableParses (tbl : TypeTable) : Bool := tbl.all (fun p => parseType (dS p.1) == some p.2.decode)
 
 /-- all ASTs of the Python tables -/
-def itemTypes : List Item → List CType
+def itemTypes : List Item → List CTypeN
   | [] => []
   | .field _ t _ :: r => t :: itemTypes r
   | _ :: r => itemTypes r
 
-def structTypes (ss : List StructT) : List CType := ss.flatMap (fun s => itemTypes s.items)
-def funcTypes (fs : List FuncT) : List CType := fs.flatMap (fun f => f.ret :: f.params.map (·.type))
+def structTypes (ss : List StructT) : List CTypeN := ss.flatMap (fun s => itemTypes s.items)
+def funcTypes (fs : List FuncT) : List CTypeN := fs.flatMap (fun f => f.ret :: f.params.map (·.type))
+
+/-- distinct elements, in order of first occurrence (frequent names are met early, so the scan of
+    `acc` is short for most elements) -/
+def dedup : List Nat → List Nat → List Nat
+  | [], acc => acc
+  | x :: xs, acc => if acc.contains x then dedup xs acc else dedup xs (acc ++ [x])
+
+/-- the check behind `python_types_wf`: shapes of all types, names of the distinct leaves -/
+def typesOk (ts : List CTypeN) : Bool :=
+  ts.all CTypeN.shapeOk && (dedup (ts.map CTypeN.leaf) []).all (fun n => wfName (dS n))
 
 end MjProof.Introspect
